@@ -80,6 +80,13 @@ type inst struct {
 	// signalled when the application-side query strings are written
 	sawCursor chan struct{}
 	sawClip   chan struct{}
+	// the terminal as seen by the writer of a cursor-position query: the request flag at the
+	// moment the query bytes arrive (read-only snapshot, taken inside Write), and, when hold is
+	// set, a Write that does not return until the harness says so: a terminal that is faster
+	// than the writer (its reply is handled before Write returns to CursorPosition)
+	holdMu       sync.Mutex
+	hold         chan struct{}
+	armedAtWrite bool
 }
 
 func newInst(p hx.Profile, qsize int) *inst {
@@ -107,7 +114,18 @@ wait:
 	in.fc.AutoReply = false
 	in.fc.WriteHook = func(p []byte) {
 		if bytes.Contains(p, []byte("\x1b[6n")) {
+			armed := in.vx.VerifC03State().ReqCursorPos
+			in.holdMu.Lock()
+			in.armedAtWrite = armed
+			h := in.hold
+			in.holdMu.Unlock()
 			in.sawCursor <- struct{}{}
+			if h != nil {
+				select {
+				case <-h:
+				case <-time.After(40 * time.Millisecond):
+				}
+			}
 		}
 		if bytes.Contains(p, []byte("\x1b]52;c;?\x1b\\")) {
 			in.sawClip <- struct{}{}
@@ -115,6 +133,8 @@ wait:
 	}
 	return in
 }
+
+func (in *inst) reqFlag() bool { return in.vx.VerifC03State().ReqCursorPos }
 
 // drain takes what is in the queue right now
 func (in *inst) drain() []Ev {
@@ -148,9 +168,32 @@ type HCase struct {
 	QSize int      `json:"qsize"` // Options.EventQueueSize (0 = default 1024)
 	Lazy  bool     `json:"lazy"`  // loop mode: start reading Events() only after 25 ms
 	Bytes []byte   `json:"bytes"` // loop mode: injected as one chunk (sentinel included)
+	// loop mode, with a held cursor-position query in the plan: injected (followed by the hold
+	// marker key) while the query's Write has not returned yet; Bytes follow after the release
+	Held []byte `json:"held,omitempty"`
 	Show  string   `json:"show"`
 	Plan  []Step   `json:"plan"` // direct mode: the steps; loop mode: app actions only (query first)
 	Tags  []string `json:"tags"`
+}
+
+// held reports whether the plan holds the Write of a cursor-position query
+func (hc HCase) held() bool {
+	for _, s := range hc.Plan {
+		if s.It == nil && s.Hold > 0 {
+			return true
+		}
+	}
+	return false
+}
+
+// allBytes is everything a loop-mode case sends, in order (two chunks when a Write is held)
+func (hc HCase) allBytes() []byte {
+	if !hc.Loop || !hc.held() {
+		return hc.Bytes
+	}
+	b := append([]byte(nil), hc.Held...)
+	b = append(b, holdMarkerBytes...)
+	return append(b, hc.Bytes...)
 }
 
 type HResult struct {
@@ -171,6 +214,21 @@ const sentinelBytes = "\x18\x1b[20;7~"
 
 var sentinelKey = vaxis.VerifC03DecodeKey(ansi.CSI{Parameters: [][]int{{20}, {7}}, Final: '~'})
 
+// the key that ends the bytes injected while a Write is held (F10 with modifiers; CAN first, so
+// that an unfinished sequence before it cannot swallow it)
+const holdMarkerBytes = "\x18\x1b[21;7~"
+
+var holdMarkerKey = vaxis.VerifC03DecodeKey(ansi.CSI{Parameters: [][]int{{21}, {7}}, Final: '~'})
+
+func isHoldMarker(e Ev) bool {
+	if e.Kind != "key" {
+		return false
+	}
+	k := *e.Key
+	k.EventType = holdMarkerKey.EventType
+	return k == holdMarkerKey
+}
+
 func isSentinel(e Ev) bool {
 	if e.Kind != "key" {
 		return false
@@ -189,13 +247,73 @@ type waiters struct {
 	clip   bool
 	// CursorPosition returned -1,-1 well before its time-out: the reply was 0;0
 	zeroAnswer bool
+	// the query's Write is being held; the arming of the request flag has not been seen yet
+	holding    bool
+	pendingArm bool
 }
 
-func (w *waiters) start(app string) {
+// release lets a held Write return, and reports the arming of the request flag if it had not
+// happened when the query was written (it then follows the write: waited for, at most 5 ms)
+func (w *waiters) release(res *HResult) {
+	if w.holding {
+		w.in.holdMu.Lock()
+		close(w.in.hold)
+		w.in.hold = nil
+		w.in.holdMu.Unlock()
+		w.holding = false
+	}
+	if w.pendingArm {
+		deadline := time.Now().Add(5 * time.Millisecond)
+		for !w.in.reqFlag() && time.Now().Before(deadline) {
+			time.Sleep(20 * time.Microsecond)
+		}
+		res.Steps = append(res.Steps, Step{App: "ACursorArm"})
+		w.pendingArm = false
+	}
+}
+
+// handle calls handleSequence (direct mode).  While a Write is held, a report that uses the
+// armed request up leaves the handler offering the answer to a caller that cannot reach its
+// select before Write returns: the Write is released at that point (the reply WAS handled before
+// the write returned; how long the terminal keeps the writer waiting afterwards is immaterial)
+func (w *waiters) handle(seq ansi.Sequence, res *HResult) (returned, panicked bool, msg string) {
+	armedBefore := w.holding && w.in.reqFlag()
+	done := make(chan struct{})
+	go func() {
+		defer close(done)
+		panicked, msg = hx.Catch(func() { w.in.vx.VerifC03Handle(seq) })
+	}()
+	deadline := time.After(150 * time.Millisecond)
+	tick := time.NewTicker(50 * time.Microsecond)
+	defer tick.Stop()
+	for {
+		select {
+		case <-done:
+			return true, panicked, msg
+		case <-deadline:
+			return false, false, ""
+		case <-tick.C:
+			if w.holding && armedBefore && !w.in.reqFlag() {
+				w.release(res)
+			}
+		}
+	}
+}
+
+// start begins an application action; for CursorPosition the observed order of its two prologue
+// statements is reported (ACursorArm / ACursorWrite: the flag as the terminal found it when the
+// query arrived), with hold the Write does not return before release
+func (w *waiters) start(app string, hold bool, res *HResult) {
 	switch app {
 	case "ACursorQuery":
 		w.curCh = make(chan [2]int, 1)
 		w.cursor = true
+		if hold {
+			w.in.holdMu.Lock()
+			w.in.hold = make(chan struct{})
+			w.in.holdMu.Unlock()
+			w.holding = true
+		}
 		go func() {
 			t0 := time.Now()
 			r, c := w.in.vx.CursorPosition()
@@ -211,7 +329,20 @@ func (w *waiters) start(app string) {
 		case <-w.in.sawCursor:
 		case <-time.After(time.Second):
 		}
+		w.in.holdMu.Lock()
+		armed := w.in.armedAtWrite
+		w.in.holdMu.Unlock()
+		if armed {
+			res.Steps = append(res.Steps, Step{App: "ACursorArm"}, Step{App: "ACursorWrite"})
+		} else {
+			res.Steps = append(res.Steps, Step{App: "ACursorWrite"})
+			w.pendingArm = true
+		}
+		if !hold {
+			w.release(res)
+		}
 	case "AClipWait":
+		res.Steps = append(res.Steps, Step{App: app})
 		w.clipCh = make(chan *string, 1)
 		w.clip = true
 		ctx, cancel := context.WithCancel(context.Background())
@@ -271,8 +402,41 @@ func runCase(hc HCase) HResult {
 	clean := true
 	if hc.Loop {
 		for _, s := range hc.Plan {
-			res.Steps = append(res.Steps, s)
-			w.start(s.App)
+			w.start(s.App, s.Hold > 0, &res)
+		}
+		if w.holding {
+			// the terminal answers while the Write has not returned: these bytes go through the
+			// real goroutine now; the Write returns when the marker key that ends them has been
+			// delivered, or as soon as a report has used the armed request up (see handle)
+			held := append(append([]byte(nil), hc.Held...), holdMarkerBytes...)
+			for _, it := range parseItems(held) {
+				it := it
+				res.Steps = append(res.Steps, Step{It: &it})
+			}
+			armedBefore := in.reqFlag()
+			in.fc.Inject(held)
+			deadline := time.After(30 * time.Millisecond)
+			tick := time.NewTicker(50 * time.Microsecond)
+		hold:
+			for {
+				select {
+				case ev := <-in.vx.Events():
+					e := fromEvent(ev)
+					res.Events = append(res.Events, e)
+					if isHoldMarker(e) {
+						break hold
+					}
+				case <-tick.C:
+					if armedBefore && !in.reqFlag() {
+						break hold
+					}
+				case <-deadline:
+					break hold
+				}
+			}
+			tick.Stop()
+			w.release(&res)
+			time.Sleep(200 * time.Microsecond)
 		}
 		for _, it := range parseItems(hc.Bytes) {
 			it := it
@@ -300,19 +464,18 @@ func runCase(hc HCase) HResult {
 			}
 		}
 	} else {
+		heldLeft := 0
 	steps:
 		for _, s := range hc.Plan {
-			res.Steps = append(res.Steps, s)
 			if s.It == nil {
-				w.start(s.App)
+				// with Hold = k the query's Write returns only after the next k sequences of the
+				// plan have been handled
+				w.start(s.App, s.Hold > 0, &res)
+				heldLeft = s.Hold
 				continue
 			}
-			seq := s.It.toSeq()
-			var panicked bool
-			var msg string
-			returned := hx.WithTimeout(150*time.Millisecond, func() {
-				panicked, msg = hx.Catch(func() { in.vx.VerifC03Handle(seq) })
-			})
+			res.Steps = append(res.Steps, s)
+			returned, panicked, msg := w.handle(s.It.toSeq(), &res)
 			switch {
 			case !returned:
 				res.Code, res.Msg, clean = 2, "handleSequence did not return within 150 ms", false
@@ -321,7 +484,13 @@ func runCase(hc HCase) HResult {
 				res.Code, res.Msg = 1, msg
 				break steps
 			}
+			if heldLeft > 0 {
+				if heldLeft--; heldLeft == 0 {
+					w.release(&res)
+				}
+			}
 		}
+		w.release(&res)
 		if res.Code == 2 {
 			// the queue is full and the handler is blocked in a send: take exactly what is queued
 			n := snapOf(in.vx).QLen
@@ -404,8 +573,9 @@ func (res HResult) term(hc HCase) string {
 	}
 	q, bs := hx.Some(hx.Z(int64(res.QFree))), hx.None
 	if hc.Loop {
-		q, bs = hx.None, hx.Some(hx.Bytes(hc.Bytes))
-		if parserModelGap(hc.Bytes, items) {
+		all := hc.allBytes()
+		q, bs = hx.None, hx.Some(hx.Bytes(all))
+		if parserModelGap(all, items) {
 			bs = hx.None
 		}
 	}
